@@ -1,10 +1,13 @@
 #!/bin/sh
-# developer convenience: run every claimed check once (not registered anywhere)
-tier=${1:-quick}
-for p in $(python3 -c "import json;print(' '.join(c['property_id'] for c in json.load(open('MANIFEST.json'))['checks']))"); do
+# developer convenience: run claimed checks once (not registered anywhere):  ./run_all.sh [quick|thorough] [Cxx ...]
+tier=${1:-quick}; [ $# -gt 0 ] && shift
+props="$*"
+[ -z "$props" ] && props=$(python3 -c "import json;print(' '.join(c['property_id'] for c in json.load(open('MANIFEST.json'))['checks']))")
+mkdir -p /tmp/scratch
+for p in $props; do
   s=$(date +%s)
-  ./check $p --tier $tier > /tmp/scratch/check_$p.log 2>&1
+  ./check $p --tier $tier > /tmp/scratch/check_${tier}_$p.log 2>&1
   rc=$?
   e=$(date +%s)
-  echo "$p rc=$rc $((e-s))s $(grep -c VIOLATION /tmp/scratch/check_$p.log) violations"
+  echo "$p rc=$rc $((e-s))s $(grep -c VIOLATION /tmp/scratch/check_${tier}_$p.log) violations"
 done
